@@ -215,6 +215,7 @@ static void oracle_hex(W &w, StepOut &out, bool tainted_shape, bool all_layout) 
         auto fail = [&](const std::string &s) { out.fail("C16", "cell " + std::to_string(ci) + ": " + s); };
         std::set<int> cv;
         bool cube = proper_cube(w, c, &cv);
+        if (all_layout && cube) stat_event("layout_checked");
         if (all_layout && cube && !hex_layout(w, hfs)) { fail("created from 8 vertices / accepted with topology check but not in the XF,XB,YF,YB,ZF,ZB layout"); return; }
         if (hfs.size() == 6 && std::set<HFH>(hfs.begin(), hfs.end()).size() == 6) {
             // accessors agree with the stored positions
@@ -235,6 +236,7 @@ static void oracle_hex(W &w, StepOut &out, bool tainted_shape, bool all_layout) 
             if (!dup && (std::set<int>(got.begin(), got.end()) != want || got.size() != want.size() || !std::is_sorted(got.begin(), got.end()))) { fail("cell_sheet_cells(" + std::to_string(d) + ") is not the set of neighbours across the four orthogonal halffaces"); return; }
         }
         if (!cube || !hex_layout(w, hfs)) continue;
+        stat_event("cube_checked");
         // hex_vertices pattern
         std::vector<int> hv; for (auto it = m.hv_iter(c); it.valid(); ++it) hv.push_back(it->idx());
         if (hv.size() != 8 || std::set<int>(hv.begin(), hv.end()) != cv) { fail("hex_vertices does not report the cell's eight distinct vertices"); return; }
